@@ -291,7 +291,7 @@ namespace c15
         return (int)f.payload.size();
     }
 
-    // other call shapes: no argument and no result; a move-only result; five arguments of mixed value categories
+    // other call shapes: no argument and no result; five arguments of mixed value categories
     struct MiscIO
     {
         int calls[3] = { 0, 0, 0 };
@@ -310,32 +310,21 @@ namespace c15
             io->arch[0] = arch_id<A>::value;
         }
     };
-    struct ProbeUnique
-    {
-        MiscIO* io;
-        template <class A>
-        __attribute__((noinline)) std::unique_ptr<long> operator()(A, std::unique_ptr<long> in) const
-        {
-            io->calls[1]++;
-            io->arch[1] = arch_id<A>::value;
-            io->want_unique = *in * 3 + arch_id<A>::value;
-            return std::unique_ptr<long>(new long(io->want_unique));
-        }
-    };
     struct ProbeMany
     {
         MiscIO* io;
         const std::string* expect_s;
         double* expect_d;
         template <class A>
-        __attribute__((noinline)) long operator()(A, int a, const std::string& s, double& d, std::vector<int>&& v, const char* z) const
+        // every parameter type accepts lvalues and rvalues alike, so that a library change in how arguments are passed on shows up as a
+        // run-time observation (copies/moves, identities) and never as a harness that no longer compiles
+        __attribute__((noinline)) long operator()(A, int a, const std::string& s, double& d, std::vector<int> v, const char* z) const
         {
             io->calls[2]++;
             io->arch[2] = arch_id<A>::value;
             io->many_ok = (&s == expect_s) && (&d == expect_d) && v.size() == 3 && z[0] == 'z';
             d += 1.5;
-            std::vector<int> taken(std::move(v));
-            io->want_many = a + (long)s.size() + (long)taken.size() + arch_id<A>::value;
+            io->want_many = a + (long)s.size() + (long)v.size() + arch_id<A>::value;
             return io->want_many;
         }
     };
@@ -343,13 +332,11 @@ namespace c15
     void run_misc(MiscIO& io, long seed)
     {
         disp<L, D>::make(ProbeVoid { &io })();
-        std::unique_ptr<long> r = disp<L, D>::make(ProbeUnique { &io })(std::unique_ptr<long>(new long(seed)));
-        io.got_unique = r ? *r : -1;
         const std::string s(5 + (size_t)(seed & 7), 'x');
         double d = 2.0;
         std::vector<int> v { 1, 2, 3 };
         io.got_many = disp<L, D>::make(ProbeMany { &io, &s, &d })((int)(seed & 1023), s, d, std::move(v), "z");
-        io.many_ok = io.many_ok && d == 3.5 && v.empty();
+        io.many_ok = io.many_ok && d == 3.5 && v.empty(); // the vector was passed as an rvalue: it must have been moved into the by-value parameter
     }
 
     template <class L>
